@@ -110,6 +110,7 @@ func run(prop string, ck checks.Check, cfg load.Config, tier string, noEv bool) 
 			return r.Finish()
 		}
 		cx.E = e
+		cx.InstallResolvers()
 	}
 	ck.Fn(cx, r)
 	if tier == "thorough" && !noEv {
